@@ -11,10 +11,14 @@ broken rather than guessing (DESIGN.md 4.1):
   run_cmp, suite_cmp          bodies (time descending; fail descending then strcmp)
   sort_suites                 the "../" prefix that sends a passing suite to the end
   render_duration             3600 / 60 and the format
-  render_rate                 WHICH of the two known bodies it is: float arithmetic truncated (as shipped) or
-                              integer arithmetic (findings/D8_pass_rate.diff)            -> rate_is_integer
-  render_suite                WHICH of the two known column walks it is: unbounded pointer (as shipped) or
-                              bounded by the number of invocations (findings/D9_bound.diff) -> walk_is_bounded
+  render_rate                 WHICH of the two known bodies it is: float arithmetic truncated (as shipped before
+                              the repair of defect D8) or integer arithmetic (findings/D8_pass_rate.diff,
+                              /repo ea4de2c)                                              -> rate_is_integer
+  render_suite                WHICH of the two known column walks it is: unbounded pointer (as shipped before the
+                              repair of defect D9) or bounded by the number of invocations
+                              (findings/D9_bound.diff, /repo 4acd4e2)                      -> walk_is_bounded
+                              The model follows whichever is found; coq/theories/Html/HtmlTie.v demands the
+                              repaired forms, so the full theorems C14_rate / C14_no_oob stop compiling on a revert.
   file names                  step.csv, end, dmesg, comment, diff, src.diff.*, tags/cvs, attic, index.html, cvsweb URL
 """
 import os, re
